@@ -437,6 +437,18 @@ func (c *Canon) fieldOf(base ssa.Value, idx int) string {
 		baseStr = c.fieldOf(b.X, b.Field) // nested struct: a.b.c, not &a.b.c
 	case *ssa.IndexAddr:
 		baseStr = "elem(" + c.Of(b.X) + ")"
+	case *ssa.Alloc:
+		// a private copy of a struct that is only read (the spilled value receiver of a getter,
+		// `tb := *p` before some reads): its fields are named like the fields of the original, so
+		// a value receiver and a pointer receiver give the same form
+		if src, ok := copyOnlyRead(b); ok {
+			baseStr = strings.TrimPrefix(c.Of(src), "*")
+			if ld, isLoad := src.(*ssa.UnOp); isLoad && ld.Op == token.MUL {
+				baseStr = c.Of(ld.X)
+			}
+		} else {
+			baseStr = c.Of(base)
+		}
 	default:
 		baseStr = c.Of(base)
 	}
@@ -448,6 +460,54 @@ func (c *Canon) fieldOf(base ssa.Value, idx int) string {
 		return baseStr + ".?"
 	}
 	return baseStr + "." + FieldLabel(st, idx)
+}
+
+// copyOnlyRead: the local struct is written exactly once, as a whole, from a parameter or a load,
+// and afterwards only its fields are read.
+func copyOnlyRead(a *ssa.Alloc) (ssa.Value, bool) {
+	pt, ok := a.Type().Underlying().(*types.Pointer)
+	if !ok || a.Referrers() == nil {
+		return nil, false
+	}
+	if _, isStruct := pt.Elem().Underlying().(*types.Struct); !isStruct {
+		return nil, false
+	}
+	var src ssa.Value
+	for _, r := range *a.Referrers() {
+		switch x := r.(type) {
+		case *ssa.Store:
+			if x.Addr != ssa.Value(a) || src != nil {
+				return nil, false
+			}
+			src = x.Val
+		case *ssa.FieldAddr:
+			if x.Referrers() == nil {
+				continue
+			}
+			for _, r2 := range *x.Referrers() {
+				if u, isLoad := r2.(*ssa.UnOp); !isLoad || u.Op != token.MUL {
+					if _, dbg := r2.(*ssa.DebugRef); !dbg {
+						return nil, false
+					}
+				}
+			}
+		case *ssa.DebugRef:
+		default:
+			return nil, false
+		}
+	}
+	if src == nil {
+		return nil, false
+	}
+	switch s := src.(type) {
+	case *ssa.Parameter:
+		return s, true
+	case *ssa.UnOp:
+		if s.Op == token.MUL {
+			return s, true
+		}
+	}
+	return nil, false
 }
 
 // flatPhiParts returns the alternatives of a phi that is not loop-carried (none of its
@@ -631,7 +691,15 @@ func (c *Canon) inlinable(fn *ssa.Function) bool {
 	}
 	for _, in := range b.Instrs[:len(b.Instrs)-1] {
 		switch x := in.(type) {
-		case *ssa.Store, *ssa.MapUpdate, *ssa.Send, *ssa.Go, *ssa.Defer, *ssa.Panic, *ssa.RunDefers:
+		case *ssa.Store:
+			// the spill of a value receiver into a local that is only read afterwards
+			if al, isAl := x.Addr.(*ssa.Alloc); isAl {
+				if _, ok := copyOnlyRead(al); ok {
+					continue
+				}
+			}
+			return false
+		case *ssa.MapUpdate, *ssa.Send, *ssa.Go, *ssa.Defer, *ssa.Panic, *ssa.RunDefers:
 			return false
 		case *ssa.DebugRef:
 		case *ssa.Call:
